@@ -27,14 +27,20 @@ fn is_first_argmin(s: &[RgbColor], c: RgbColor, lo: usize, hi: usize, i: usize) 
     true
 }
 
-/// distance == published red-mean metric (x512), no overflow — all 2^48 pairs (complete)
+/// distance == published red-mean metric (x512), no overflow.
+/// Counterexample finder for the Verus obligation `distance` (which is the unbounded proof):
+/// c1 fully symbolic, each component of c2 drawn from {0, 128, 255} — BOUNDED
+/// (full 2^48 equivalence of two differently associated multiplier trees does not finish in CBMC).
 #[cfg_attr(kani, kani::proof)]
 #[cfg_attr(not(kani), test)]
 fn lossy_distance_eq_spec() {
     let c1 = any_rgb();
-    let c2 = any_rgb();
+    let pick = |k: u8| if k == 0 { 0u8 } else if k == 1 { 128 } else { 255 };
+    let c2 = RgbColor(pick(vk::any_u8_in(0, 2)), pick(vk::any_u8_in(0, 2)), pick(vk::any_u8_in(0, 2)));
     let d = crate::distance(c1, c2);
     assert!(d as i64 == sd(c1, c2) as i64, "distance equals the red-mean metric sd(c1,c2)");
+    let d2 = crate::distance(c2, c1);
+    assert!(d2 == d, "distance is symmetric");
     vk::vk_cover!(c1.1 != c2.1, "green differs");
 }
 
